@@ -52,6 +52,27 @@ Print Assumptions C07_montgomery_ruint_ops_are_plain_residues.
 Theorem C07_montgomery_ruint_inv_div_init_constants : MR_inv_div_init_stmt. Proof. exact MR_inv_div_init. Qed.
 Print Assumptions C07_montgomery_ruint_inv_div_init_constants.
 
+(* Part 2, statements without side conditions on the operands (ProofsAll.v): non-units, zero, every exponent, every native
+   operand, composite moduli.  Example Stored_form_composite_modulus: RecMod 0 315. *)
+From C07 Require Import ProofsAll.
+
+Theorem C07_recint_inv_mod_every_input : Inv_mod_any_stmt.                  Proof. exact Inv_mod_any. Qed.
+Print Assumptions C07_recint_inv_mod_every_input.
+Theorem C07_inv_div_every_input_unit_or_not : Inv_div_any_stmt.             Proof. exact Inv_div_any. Qed.
+Print Assumptions C07_inv_div_every_input_unit_or_not.
+Theorem C07_rmint_variants_agree_on_every_input : Agree_all_stmt.           Proof. exact Agree_all. Qed.
+Print Assumptions C07_rmint_variants_agree_on_every_input.
+Theorem C07_stored_form_below_p_every_operation : Stored_form_stmt.         Proof. exact Stored_form. Qed.
+Print Assumptions C07_stored_form_below_p_every_operation.
+(* refuted: the comment of ruinvmod.h "if b is not invertible, a = 0" (inv_mod 3 mod 9 = 1), and the body of rmsub.h
+   sub(a, b, c) before fix-6 run with the destination being b (p = 101, b = 5, c = 7: 188) *)
+Theorem C07_inv_mod_zero_for_nonunits_refuted : ~ inv_mod_nonunit_is_zero_stmt.  Proof. exact inv_mod_nonunit_is_zero_refuted. Qed.
+Print Assumptions C07_inv_mod_zero_for_nonunits_refuted.
+Theorem C07_rmsub_before_fix6_destination_is_minuend_refuted :
+  exists k p b c, RecMod k p /\ canon p b /\ canon p c /\ rm_sub_old_dst_is_b k p b c <> (b - c) mod p /\ ~ canon p (rm_sub_old_dst_is_b k p b c).
+Proof. exact rm_sub_old_dst_is_b_refuted. Qed.
+Print Assumptions C07_rmsub_before_fix6_destination_is_minuend_refuted.
+
 (* Part 2 over C06's limb model (coq/C06 imported read-only): the Montgomery functions written as compositions of C06's
    limb-level primitives (LimbModel.v).  wf = every limb in [0,2^64); val = the integer a limb tree denotes.  Every fact
    about add/sub/cmp/mul/lmul/lsquare/laddmul/mod_n/div/neg/arazi_qi/inv_mod used in these proofs is a theorem of
